@@ -15,6 +15,7 @@ mod c14_stream;
 mod formats;
 mod http;
 mod memsrc;
+mod mvt;
 mod pipeline;
 
 use std::path::PathBuf;
@@ -52,6 +53,7 @@ fn main() {
 		"c15" => c15_bbox::run(&ctx),
 		"c14" => c14_stream::run(&ctx),
 		"c17" => c17_json::run(&ctx),
+		"c10" | "c11" | "mvt" => mvt::run(&ctx, &cmd),
 		"c18" => c18_vpl::run(&ctx),
 		"c04" => c04_recompress::run(&ctx),
 		"c05" => http::run_c05(&ctx),
